@@ -11,7 +11,7 @@ import zlib
 
 import numpy as np
 
-from .common import model_check, run_tlc, MachineryError, pmap, Collector
+from .common import model_check, run_tlc, validate_traces, MachineryError, pmap, Collector
 from . import fitworld as fw
 from . import pkgworld as pw
 from .c06 import make_filter
@@ -132,6 +132,58 @@ def replay_chunk(behs, root, seed):
     return col
 
 
+def record_traces(seeds, root):
+    """random longer histories on real packages, logged call by call (code -> spec direction)"""
+    import random
+    from astropy import units as u
+    from sedfitter.convolve import convolve_model_dir, convolve_model_dir_monochromatic
+    out = []
+    refs = {}
+    wav_desc = sorted((12.0 / g for g in GX), reverse=True)
+    for sd in seeds:
+        rng = random.Random(sd)
+        fmt = rng.choice(['perfile', 'perfile', 'cube'])
+        if fmt not in refs:
+            refs[fmt] = reference(root, fmt)
+            if fmt == 'cube':
+                refs[fmt].update({k: 1.0 for k in FILES if k.startswith('MO')})
+        d = new_package(root, fmt)
+        gen = 1
+        tr = [{'ev': 'Init', 'fmt': fmt}]
+        try:
+            for _ in range(rng.randint(4, 9)):
+                r = rng.random()
+                if r < 0.15:
+                    op = {'k': 'bump', 'fs': [], 'ow': False, 'lo': 0, 'hi': 0}
+                elif r < 0.65 or fmt == 'cube' and r < 0.9:
+                    fs = [rng.choice('AB') for _ in range(rng.randint(1, 3))]          # a filter may be named twice in one call
+                    op = {'k': 'convolve', 'fs': fs, 'ow': rng.random() < 0.4, 'lo': 0, 'hi': 0}
+                else:
+                    lo = rng.randint(1, 3)
+                    op = {'k': 'mono', 'fs': [], 'ow': rng.random() < 0.4, 'lo': lo, 'hi': rng.randint(lo - 1, 3)}
+                res = 'ok'
+                try:
+                    with fw.quiet():
+                        if op['k'] == 'bump':
+                            gen += 1
+                            write_seds(d, fmt, gen)
+                        elif op['k'] == 'convolve':
+                            convolve_model_dir(d, filters(op['fs']), overwrite=op['ow'])
+                        else:
+                            lo, hi = op['lo'], op['hi']
+                            kw = {'wav_max': (wav_desc[lo - 1] * 1.01) * u.micron,
+                                  'wav_min': (wav_desc[hi - 1] * 0.99 if hi >= lo else wav_desc[lo - 1] * 1.005) * u.micron}
+                            convolve_model_dir_monochromatic(d, overwrite=op['ow'], max_ram=rng.choice([8, 1.6e-8, 3e-8]), **kw)
+                except Exception:
+                    res = 'err'
+                snap = snapshot(d, refs[fmt])
+                tr.append({'ev': 'Call', 'op': op, 'out': res, 'files': {f: (snap[f] if isinstance(snap[f], int) else -1) for f in FILES}})
+        finally:
+            shutil.rmtree(d, ignore_errors=True)
+        out.append(tr)
+    return out
+
+
 def run(ctx):
     q = not ctx.thorough
     cfg = ctx.tmp('MC_ConvDir_run.cfg')
@@ -155,3 +207,11 @@ def run(ctx):
     root = ctx.mkdtemp('cd')
     for col in pmap(lambda c: replay_chunk(c, root, ctx.seed), chosen):
         col.merge_into(ctx)
+    seeds = [ctx.seed * 65537 + i for i in range(200 if q else 2000)]
+    trs = []
+    for part in pmap(lambda c: record_traces(c, root), seeds):
+        trs.extend(part)
+    ctx.sample({'trace': trs[0]})
+    for idx, viol in validate_traces(ctx, 'Trace_ConvDir', 'Trace_ConvDir.cfg', trs, chunk=500)[:10]:
+        ctx.violation('X07:trace:%s' % (viol[0][1] if viol else '?'), 'recorded convolution history rejected by Trace_ConvDir: %r' % (viol[:5],),
+                      {'trace': trs[idx], 'viol': viol})
